@@ -72,6 +72,21 @@ impl Module for SyncMod {
     fn handle_message(&mut self, msg: Message) {
         let h = msg.header();
         net::log("recv", h.kind as i64, h.id as i64);
+        if self.draws % 2 == 1 {
+            // an unbiased select! evaluated synchronously inside the handler (both branches ready): the branch is
+            // chosen by tokio's generator, which has to be the seeded one here as well
+            use futures::FutureExt;
+            let pick = async {
+                tokio::select! {
+                    _ = std::future::ready(()) => 0,
+                    _ = std::future::ready(()) => 1,
+                    _ = std::future::ready(()) => 2,
+                }
+            }
+            .now_or_never()
+            .unwrap_or(-1);
+            net::log("sync-select", pick, 0);
+        }
         for _ in 0..self.draws {
             let v: u64 = random();
             net::log("draw", (v >> 1) as i64, 0);
@@ -322,6 +337,9 @@ pub fn run_case(case: &Case) -> Result<(bool, Vec<&'static str>), Failure> {
     if has_select {
         labels.push("unbiased-select");
     }
+    if t1.log.iter().any(|r| r.1 == "sync-select") {
+        labels.push("unbiased-select-inside-a-synchronous-handler");
+    }
     if has_jitter {
         labels.push("message-over-jittered-channel");
     }
@@ -346,7 +364,7 @@ impl Prop for C04 {
 
     fn rule() -> String {
         "proptest: 2..6 modules in a ring plus generated chords, every link a channel with latency, bitrate and jitter > 0; module kinds: \
-         synchronous handlers that draw random::<u64>() and choose the forwarding gate with sample(Uniform), and async modules whose task loops \
+         synchronous handlers that draw random::<u64>(), evaluate an unbiased three-way select! on the spot and choose the forwarding gate with sample(Uniform), and async modules whose task loops \
          over an unbiased tokio::select! of two sleeps due at the same instant and the inbox, drawing random numbers, with 0..3 further \
          tasks per module that sleep until the very same instants and draw a number after each wake-up, optionally \
          shutting themselves down and restarting (new runtime, the task starts over); random start delays; generated \
